@@ -60,7 +60,7 @@ def cases(draw):
     keys = m.keys(t)
     segs = [f[k] for k in keys]
     rule = draw(st.sampled_from(["R1", "R2", "R3", "R4", "R5"]))
-    star_p = draw(st.sampled_from([35, 35, 10, 0])) if rule in ("R4", "R5") else 35
+    star_p = draw(st.sampled_from([35, 35, 10, 0])) if rule in ("R4", "R5") else draw(st.sampled_from([35, 35, 0]))
     for i in range(len(keys)):
         if draw(st.integers(0, 99)) < star_p:
             segs[i] = "*"
@@ -70,8 +70,20 @@ def cases(draw):
     derived = []
     if rule == "R1":
         i = draw(st.integers(0, len(keys) - 1))
+        free_at = [j for j, kk in enumerate(keys) if m.specs[(t, kk)].free]
+        mixed = bool(free_at) and draw(st.integers(0, 3)) == 0
+        if mixed:
+            # a list that mixes a literal with an in-segment pattern, every other segment literal: one unfolded form has a
+            # wildcard, the other has none
+            i = draw(st.sampled_from(free_at))
+            segs = [f[kk] for kk in keys]
         spec = m.specs[(t, keys[i])]
-        alts = [f[keys[i]]] + [draw(st.one_of(gens.entity_value(m, t, keys[i]), st.just("zz"))) for _ in range(draw(st.integers(1, 2)))]
+        v0 = f[keys[i]]
+        patterns = [v0[:1] + "*", "*" + v0[-1:], "x*", "y*", "zz*", "!*", "+*", "A*"] if spec.free else ["zz"]
+        alts = [v0] + [draw(st.one_of(gens.entity_value(m, t, keys[i]), st.just("zz"), st.sampled_from(patterns)))
+                       for _ in range(draw(st.integers(1, 2)))]
+        if mixed:
+            alts.append(draw(st.sampled_from(patterns)))
         alts = list(draw(st.permutations(list(dict.fromkeys(alts)))))   # the existing value is not always the first alternative
         sep = draw(st.sampled_from([",", ", "]))
         base = list(segs)
